@@ -1,11 +1,4 @@
 NOT_BUILT_REASON = "check not built yet in this round (planned in DESIGN.md §6; no technique switch) — not claimed until its model, theorems and tie exist"
 HOOK_COMMITS = ["a8ec8bc"]
-META = {
-    "C06": {
-        "engine": "lean+harness(router)",
-        "design_ref": "DESIGN.md §6 C06",
-        "technique": "Lean 4 invariant + refinement-to-spec proof over all add/del histories; differential correspondence with the real vhost.Routers / getVhost / Muxer.getListener",
-        "text": "Proof: for every reachable route table (any history of registrations/removals) and every host, path, user, the modelled lookup returns a registered matching route that is at least as specific (host pattern, then user restriction, then location length) as every other registered matching route, and none iff nothing matches; duplicates are refused leaving the table unchanged; removal affects only the removed triple. Kernel-checked, axioms propext/Classical.choice/Quot.sound only. The model is hand-written and tied to the code by replaying 20k (quick) generated operations per run on the real Routers/HTTPReverseProxy/Muxer and on the model, with the Lean property predicate evaluated on the implementation's own answers.",
-        "note": "Trusted: Lean kernel; the hand-written model of router.go/getVhost/getListener/CanonicalHost and the correspondence harness generators (ASCII hosts; non-ASCII skipped and counted). Not covered by the theorem: reuse of pooled keep-alive backend connections across re-registration (net/http Transport), the golib mux dispatch when the vhost port is shared with the control port.",
-    },
-}
+# properties that are deliberately not claimed, with the reason (overrides NOT_BUILT_REASON)
+NA_REASONS = {}
